@@ -115,6 +115,20 @@ def gen_scenarios(rng, tier):
     return sc
 
 
+def confirm_growth(exe, sc, ws, fl):
+    """same configuration, the cycle (ws, fl) seven times in a fresh process: does the ledger keep growing?"""
+    ns, nw = sc["cfg"]
+    lines = ["C %s %s" % (",".join(ws) if ws else "none", fl)] * 7
+    env = core.qenv(ns, nw, stack=sc.get("stack", 65536), **sc.get("env", {}))
+    rc, out, err = core.run_lines(exe, lines, timeout=180 + 3 * len(lines), env=env)
+    base, cycles, tmo, ended = parse_run(out)
+    led = [int(c["Z"]["ledger_bytes"]) for c in cycles if "Z" in c]
+    if len(led) < 7:
+        return {"confirmed": True, "ledger": "confirmation run did not complete: %s" % (tmo or rc)}
+    steps = [led[k + 1] - led[k] for k in range(2, 6)]          # transitions 3->4 ... 6->7
+    return {"confirmed": sum(1 for d in steps if d > 64) >= 3, "ledger": led}
+
+
 def run(ctx):
     rng = ctx.rng
     rows, facts, changed = c19_subsystems.regenerate()
@@ -237,8 +251,16 @@ def run(ctx):
             if prev is not None and cyc >= 3 and not new_use:
                 grow = int(Z["ledger_bytes"]) - int(prev["ledger_bytes"])
                 if grow > 256:
-                    probs.append("live heap (interposed malloc ledger) grew by %d bytes from cycle %d to %d with no subsystem used for the first time"
-                                 % (grow, cyc - 1, cyc))
+                    # A leak grows on EVERY repetition; a one-time allocation (e.g. glibc keeps the stack and TLS block of
+                    # a thread it has cached: one more simultaneously live thread than ever before costs a few hundred
+                    # bytes once) does not.  Confirm by running the same cycle six more times in a fresh process.
+                    conf = confirm_growth(exe, sc, ws, fl)
+                    if conf["confirmed"]:
+                        probs.append("live heap (interposed malloc ledger) grew by %d bytes from cycle %d to %d with no subsystem used for the first time"
+                                     " (confirmed: it keeps growing over identical cycles: %s)" % (grow, cyc - 1, cyc, conf["ledger"]))
+                    else:
+                        ctx.notes.append("scenario %s: the ledger grew once by %d bytes from cycle %d to %d and did not keep growing over six "
+                                         "identical cycles (%s): one-time allocation, not a leak" % (sc["name"], grow, cyc - 1, cyc, conf["ledger"]))
                 if int(Z["uordblks"]) - int(prev["uordblks"]) > 262144:
                     probs.append("mallinfo2 in-use bytes grew by %d from cycle %d to %d" % (int(Z["uordblks"]) - int(prev["uordblks"]), cyc - 1, cyc))
             used_so_far |= set(ws)
